@@ -94,3 +94,60 @@ benign("C18.b-early-return", "C18", P,
 benign("C18.b-filter-local", "C18", G,
        "        if self.dynamic_filter and not self._call_dynamic_filter(\n            parent, head.state, state, REDUCE, production, list(node_nonterm)\n        ):\n            # Action rejected by dynamic filter\n            return\n",
        "        if self.dynamic_filter:\n            if not self._call_dynamic_filter(\n                parent, head.state, state, REDUCE, production, list(node_nonterm)\n            ):\n                return\n")
+
+# ---------------------------------------------------------------- C07
+fault("C07.no-reverse", "C07", T, "sorted(state.actions.items(), key=act_order, reverse=True)", "sorted(state.actions.items(), key=act_order)", "R07.sort-key")
+fault("C07.kw-name-len", "C07", T, "len(symbol.recognizer.name)\n", "len(symbol.name)\n", "R07.sort-key")
+fault("C07.tiebreak-name", "C07", T, "                symbol.fqn,\n            )\n            return cmp_str", "                symbol.name,\n            )\n            return cmp_str", "R07.sort-key")
+fault("C07.no-string-term", "C07", T, "                        len(symbol.recognizer.value)\n                        if type(symbol.recognizer) is StringRecognizer\n                        else 0",
+      "                        0", "R07.sort-key")
+fault("C07.prior-weight", "C07", T, "symbol.prior * 1000", "symbol.prior * 100", "R07.sort-key")
+fault("C07.finish-drop-keyword", "C07", T, "                        or type(symbol.recognizer) is StringRecognizer\n                        or symbol.keyword\n",
+      "                        or type(symbol.recognizer) is StringRecognizer\n", "R07.finish")
+fault("C07.finish-ge", "C07", T, "(symbol.prior > prior if prior else False)", "(symbol.prior >= prior if prior else False)", "R07.finish")
+fault("C07.finish-explicit-ignored", "C07", T, "                if symbol.finish is not None:\n                    finish_flags.append(symbol.finish)",
+      "                if symbol.finish:\n                    finish_flags.append(symbol.finish)", "R07.finish")
+fault("C07.finish-forward", "C07", T, "in reversed(list(state.actions.items())):", "in list(state.actions.items()):", "R07.finish")
+fault("C07.scan-le", "C07", P, "if symbol.prior < last_prior and tokens:", "if symbol.prior <= last_prior and tokens:", "R07.scan-loop")
+fault("C07.scan-no-tokens", "C07", P, "if symbol.prior < last_prior and tokens:", "if symbol.prior < last_prior:", "R07.scan-loop")
+fault("C07.scan-finish-any", "C07", P, "                if finish_flags[idx]:\n                    break", "                if any(finish_flags):\n                    break", "R07.scan-loop")
+fault("C07.scan-all-terminals", "C07", P, "        actions = head.state.actions\n        position = head.position\n        finish_flags",
+      "        actions = self.grammar.terminals.values()\n        position = head.position\n        finish_flags", "R07.scan-loop")
+fault("C07.prefer-first", "C07", P, "        pref_tokens = [x for x in tokens if x.symbol.prefer]\n        if pref_tokens:",
+      "        pref_tokens = [x for x in tokens if x.symbol.prefer][:1]\n        if pref_tokens:", "R07.longest-prefer")
+fault("C07.longest-ge", "C07", P, "tokens = [x for x in tokens if len(x.value) == max_len]", "tokens = [x for x in tokens if len(x.value) >= max_len - 1]", "R07.longest-prefer")
+fault("C07.card-first", "C07", P, "        elif len(tokens) == 1:\n            return tokens[0]\n        else:\n            raise DisambiguationError(Location(head), tokens)",
+      "        else:\n            return tokens[0]", "R07.cardinality")
+fault("C07.gate-custom", "C07", P, "        # do lexical disambiguation if it is enabled\n        if self.lexical_disambiguation:\n            tokens = self._lexical_disambiguation(tokens)\n",
+      "        # do lexical disambiguation if it is enabled\n        if self.lexical_disambiguation and not self.custom_token_recognition:\n            tokens = self._lexical_disambiguation(tokens)\n", "R07.gate")
+fault("C07.glr-default-on", "C07", G, "            if lexical_disambiguation is None:\n                lexical_disambiguation = False", "            if lexical_disambiguation is None:\n                lexical_disambiguation = True", "R07.gate")
+benign("C07.b-tuple-key", "C07", T,
+       """            cmp_str = "{:010d}{:500s}".format(
+                symbol.prior * 1000
+                + (
+                    500
+                    + (
+                        len(symbol.recognizer.value)
+                        if type(symbol.recognizer) is StringRecognizer
+                        else 0
+                    )
+                    +
+                    # For keywords use the length of the keyword text (kept as the
+                    # name of the word boundary regex recognizer)
+                    (
+                        len(symbol.recognizer.name)
+                        if type(symbol.recognizer) is RegExRecognizer and symbol.keyword
+                        else 0
+                    )
+                ),
+                symbol.fqn,
+            )
+            return cmp_str""",
+       """            return (
+                symbol.prior,
+                (len(symbol.recognizer.value) if type(symbol.recognizer) is StringRecognizer else 0)
+                + (len(symbol.recognizer.name) if type(symbol.recognizer) is RegExRecognizer and symbol.keyword else 0),
+                symbol.fqn,
+            )""")
+benign("C07.b-longest-local", "C07", P,
+       "        tokens = [x for x in tokens if len(x.value) == max_len]\n", "        longest = [x for x in tokens if len(x.value) == max_len]\n        tokens = longest\n")
